@@ -4,7 +4,7 @@ from tools import vlib, t3
 from tools.vlib import hx, unhx
 
 MODULE = "PropC19"
-THEOREMS = ["C19_product", "C19_product_lengths", "C19_product_is_cartesian", "C19_product_size", "C19_product_exactly_once", "C19_concat_unfold", "C19_selector", "C19_selector_order", "C19_split_bytes", "C19_split_bound", "C19_split_example", "C19_concat"]
+THEOREMS = ["C19_product", "C19_product_lengths", "C19_product_is_cartesian", "C19_product_size", "C19_product_exactly_once", "C19_concat_unfold", "C19_selector", "C19_selector_order", "C19_split_bytes", "C19_split_bound", "C19_split_example", "C19_concat", "C19_cone_conforms"]
 
 
 def rec_lines(sc, name):
